@@ -138,6 +138,8 @@ class SimFS(object):
         self.crashed = False
         self.saw_eof = False
         self.outside = 0
+        self.known_names = None      # basenames the check itself uses (None = log every name as it is)
+        self._anon = {}
 
     # -- scratch directory ----------------------------------------------------
     def cleanup(self):
@@ -150,10 +152,17 @@ class SimFS(object):
         return logical
 
     def show(self, path):
-        """stable name for the event log (the scratch directory has a random name)"""
+        """stable name for the event log: the scratch directory has a random name, and the library may
+        create files of its own with random or pid-dependent names (tempfile, '<name>.<pid>.part'): names
+        that were not declared by the check are logged by order of first appearance"""
         path = str(path)
         if path.startswith(self.root):
-            return "/sim" + path[len(self.root):]
+            rel = path[len(self.root):]
+            base = rel.rsplit("/", 1)[-1]
+            if self.known_names is None or base in self.known_names:
+                return "/sim" + rel
+            k = self._anon.setdefault(rel, len(self._anon) + 1)
+            return "/sim" + rel[:len(rel) - len(base)] + "other#%d" % k
         return path
 
     def write_file(self, path, data):
